@@ -478,6 +478,18 @@ def case(ctx, rnd, i):
                     from prosemirror.model.from_dom import from_html
 
                     ser = DOMSerializer.from_schema(S)
+                    if rnd.random() < 0.5:
+                        # a serialiser whose output specs hand over the node's / mark's own attrs
+                        # object (as older bundled schemas did): rendering must only read it
+                        nodes_ = dict(ser.nodes)
+                        marks_ = dict(ser.marks)
+                        nodes_["image"] = lambda nd_: ["img", nd_.attrs]
+                        nodes_["heading"] = lambda nd_: ["h" + str(nd_.attrs["level"]), nd_.attrs, 0]
+                        if "ordered_list" in nodes_:
+                            nodes_["ordered_list"] = lambda nd_: ["ol", nd_.attrs, 0]
+                        marks_["link"] = lambda mk_, inl_: ["a", mk_.attrs, 0]
+                        ser = DOMSerializer(nodes_, marks_)
+                        name = "dom-live-attrs"
                     html = str(ser.serialize_fragment(doc.content))
                     try:
                         nd = from_html(S, html)
